@@ -96,12 +96,20 @@ Record hyout := {
   ho_n : nat;                   (* number returned *)
   ho_weak : bool;               (* a sub-search cut or an RRF rank fell inside a tie group *)
   ho_cands : option (list Z);   (* metadata candidates when a filter was given *)
-  ho_vecids : list Z; ho_txtids : list Z }.
+  ho_vecids : list Z; ho_txtids : list Z;   (* per-modality candidates, closed under ties at the cut *)
+  ho_modal_known : bool }.                  (* false: a probe / per-query cut tie makes the candidate sets ambiguous *)
 
 Inductive hyres := HOk (o : hyout) | HErr (e : Z) | HNoOracle.
 
 Definition cut_tie32 (agg : list (Z * Z)) (n : nat) : bool :=
   tie_at (fun x => F32.key (snd x)) agg (0, 0) n.
+(** the first n entries of a sorted list plus every following entry that ties with the n-th *)
+Definition tie_closed32 (agg : list (Z * Z)) (n : nat) : list (Z * Z) :=
+  match n with
+  | O => []
+  | S m => let lastk := F32.key (snd (nth m agg (0, 0))) in
+           firstn n agg ++ filter (fun x => F32.key (snd x) =? lastk) (skipn n agg)
+  end.
 Definition has_dup_keys64 (m : list (Z * Z)) : bool :=
   let ks := map (fun p => F64.key (snd p)) m in
   negb (Nat.eqb (length (nodup Z.eq_dec ks)) (length ks)).
@@ -123,13 +131,13 @@ Definition hy_search (s : hystate) (rq : hyrequest) : hyres :=
       else Some None in
   match cands with
   | None => HErr (match hy_meta s with None => E_NOTCONFIGURED | Some _ => E_METASEARCH end)
-  | Some (Some []) => HOk {| ho_full := []; ho_n := O; ho_weak := false; ho_cands := Some []; ho_vecids := []; ho_txtids := [] |}
+  | Some (Some []) => HOk {| ho_full := []; ho_n := O; ho_weak := false; ho_cands := Some []; ho_vecids := []; ho_txtids := []; ho_modal_known := true |}
   | Some co =>
       let docids := match co with Some l => l | None => [] end in
       let vq := negb (match hq_vec rq with [] => true | _ => false end) in
       let tq := negb (match hq_txt rq with [] => true | _ => false end) in
       (* vector modality *)
-      let vres : res (list (Z * Z) * bool) :=
+      let vres : res (list (Z * Z) * bool * (list Z * bool)) :=
           if vq then
             match hy_vec s with
             | None => Err E_NOTCONFIGURED
@@ -142,15 +150,17 @@ Definition hy_search (s : hystate) (rq : hyrequest) : hyres :=
                 | Err e => Err e
                 | Ok xo => match xo_n xo with
                            | None => Err E_PANIC
-                           | Some n => Ok (firstn n (xo_agg xo), xo_ptie xo || xo_tie xo || cut_tie32 (xo_agg xo) n)
+                           | Some n => Ok (firstn n (xo_agg xo), xo_ptie xo || xo_tie xo || cut_tie32 (xo_agg xo) n,
+                                           (map fst (tie_closed32 (if xo_single xo then xo_aggfull xo else xo_agg xo) n),
+                                            negb (xo_ptie xo) && (xo_single xo || negb (xo_tie xo))))
                            end
                 end
             end
-          else Ok ([], false) in
+          else Ok ([], false, ([], true)) in
       match vres with
       | Err e => HErr e
-      | Ok (vl, vweak) =>
-          let tres : option (res (list (Z * Z) * bool)) :=
+      | Ok (vl, vweak, (vids, vknown)) =>
+          let tres : option (res (list (Z * Z) * bool * (list Z * bool))) :=
               if tq then
                 match hy_txt s with
                 | None => Some (Err E_NOTCONFIGURED)
@@ -161,15 +171,17 @@ Definition hy_search (s : hystate) (rq : hyrequest) : hyres :=
                     | BErr e => Some (Err e)
                     | BOk xo => match xo_n xo with
                                 | None => Some (Err E_PANIC)
-                                | Some n => Some (Ok (firstn n (xo_agg xo), xo_tie xo || cut_tie32 (xo_agg xo) n))
+                                | Some n => Some (Ok (firstn n (xo_agg xo), xo_tie xo || cut_tie32 (xo_agg xo) n,
+                                                 (map fst (tie_closed32 (if xo_single xo then xo_aggfull xo else xo_agg xo) n),
+                                                  xo_single xo || negb (xo_tie xo))))
                                 end
                     end
                 end
-              else Some (Ok ([], false)) in
+              else Some (Ok ([], false, ([], true))) in
           match tres with
           | None => HNoOracle
           | Some (Err e) => HErr e
-          | Some (Ok (tl, tweak)) =>
+          | Some (Ok (tl, tweak, (tids, tknown))) =>
               let vm := map (fun p => (fst p, f32_to_f64 (snd p))) vl in
               let tm := map (fun p => (fst p, f32_to_f64 (snd p))) tl in
               let combined :=
@@ -180,7 +192,7 @@ Definition hy_search (s : hystate) (rq : hyrequest) : hyres :=
                              | FRRF => vq && tq && (has_dup_keys64 vm || has_dup_keys64 tm) | _ => false end in
               let '(full, n) := hy_final combined (hq_k rq) in
               HOk {| ho_full := full; ho_n := n; ho_weak := vweak || tweak || rrfweak; ho_cands := co;
-                     ho_vecids := map fst vl; ho_txtids := map fst tl |}
+                     ho_vecids := vids; ho_txtids := tids; ho_modal_known := vknown && tknown |}
           end
       end
   end.
